@@ -107,12 +107,17 @@ class Chain(object):
     if with_event:
       evt = Observable()
       msg.properties[Deadline.EVENT_KEY] = evt
+    frames, st = self.send(name, msg)
+    return frames, evt, st
+
+  def send(self, name, msg):
+    from scales.sink import ClientMessageSinkStack
     st = ClientMessageSinkStack()
     st.Push(self.term, name)
     n0 = len(self.peer.frames)
     self.top.AsyncProcessRequest(st, msg, None, {})
     self.pump()
-    return self.peer.frames[n0:], evt, st
+    return self.peer.frames[n0:], st
 
 
 def decode_thrift_call(H, payload):
@@ -199,6 +204,54 @@ def check_requests(client_ids, ctx_list, deadlines, args):
             world.reset()
             ch = Chain(cid)
   return {'n': n, 'keys': len(keys), 'viol': viol, 'sample': sample}
+
+
+def check_redispatch():
+  """One message object dispatched more than once (what a retry layer does), its caller properties changed in between, and a sink
+  above the chain that reads the message's public properties before the client id is added: every frame must carry the contexts
+  the message has at the moment it is sent."""
+  from scales.message import MethodCallMessage
+  viol = []
+  n = 0
+  steps = [{'a': 'x'}, {'a': 'y'}, {'a': 'y', 'b': 'é'}, {'b': 'é'}, {}]
+  for cid in (None, 'c'):
+    for peek in (False, True):
+      world.reset()
+      ch = Chain(cid)
+      msg = MethodCallMessage(ch.iface, 'hi', ('arg',), {})
+      tagrel = None
+      for i, props in enumerate(steps):
+        n += 1
+        for k in [k for k in list(msg.properties.keys()) if k in ('a', 'b')]:
+          del msg.properties[k]
+        msg.properties.update(props)
+        if peek:
+          list(msg.public_properties.items())      # e.g. a logging / tracing sink above the chain
+        frames, st = ch.send('m%d' % i, msg)
+        ds = [f for f in frames if f[0] == M.T_DISPATCH]
+        bad = None
+        if len(ds) != 1:
+          bad = 'peer decoded %d Tdispatch frames' % len(ds)
+        else:
+          try:
+            d = M.decode_tdispatch(ds[0][2])
+            want = dict((k.encode('utf-8'), v.encode('utf-8')) for k, v in props.items())
+            if cid is not None:
+              want[CLIENTID_KEY] = cid.encode('utf-8')
+            got = dict(d['contexts'])
+            got.pop(DEADLINE_KEY, None)
+            if got != want:
+              bad = 'decoded contexts %r, the message carries %r' % (sorted(got.items()), sorted(want.items()))
+          except Exception as e:  # noqa
+            bad = 'Tdispatch body does not decode: %r' % (e,)
+          ch.conn.rx += M.rdispatch(ds[0][1], M.OK, b'')
+          ch.conn.wake()
+          ch.pump()
+        if bad:
+          viol.append({'clause': 'C13.contexts', 'message': 'message object sent for the %d. time (client id %r, properties read beforehand: %s): %s'
+                       % (i + 1, cid, peek, bad), 'sig': {'redispatch': True}})
+          break
+  return {'n': n, 'keys': n, 'viol': viol, 'sample': {'redispatch_steps': steps}}
 
 
 def check_unencodable():
@@ -514,6 +567,7 @@ def main(tier, seed):
     out.append(explore.pmap('vt.checks.c13', 'check_interleave', [()], pool, seed)[0])
     out.append(explore.pmap('vt.checks.c13', 'check_two_services', [()], pool, seed)[0])
     out.append(explore.pmap('vt.checks.c13', 'check_unencodable', [()], pool, seed)[0])
+    out.append(explore.pmap('vt.checks.c13', 'check_redispatch', [()], pool, seed)[0])
     nreq = sum(o['n'] for o in out)
     rep.part('frames through the real sinks', engine='E', cases=nreq, context_dicts=len(ctxs), client_ids=CLIENT_IDS,
              deadlines=deadlines, strings=[s[:8] for s in STRS])
